@@ -140,7 +140,7 @@ def run_case(case):
 def cases(tier):
     out = []
     if tier == "quick":
-        Ns, rads = [4, 5, 7, 12, 13, 20, 42, 43], RADIALS
+        Ns, rads = list(range(4, 46)) + [63, 64], RADIALS
     else:
         Ns, rads = list(range(4, 65)), RADIALS_T
     for alg in ("ico", "cube3D", "randomS"):
@@ -163,7 +163,7 @@ def run(ctx):
                 "list/tuple/linspace/range syntax); every cell volume and every ordered pair (adjacency, border, distance) "
                 "against closed forms on the arc-clipping oracle; evaluations = ordered pairs compared",
         "samples": collect_samples([f"{c['alg']}_{c['N']} {c['t']}" for c in cs], 6),
-        "exhaustive": True, "bound": {"N": "menu {4,5,7,12,13,20,42,43}" if ctx.tier == "quick" else "4..64"},
+        "exhaustive": True, "bound": {"N": "4..45, 63, 64" if ctx.tier == "quick" else "4..64"},
     }
     rep.assumptions = ["relative tolerance 1e-7", "radii of the oracle come from exact rationals, not from the parser"]
     return rep
